@@ -173,6 +173,7 @@ impl Monitor for C05 {
         let nl = ns(cfg);
         let mut rng = Rng::for_trial(cfg.seed, "C05", idx);
         let n = nl[((idx / 2) % nl.len() as u64) as usize];
+        let n = super::jitter_n(cfg, n, 1, 64, &mut rng);
         let k = kind(idx % 2, n);
         let class = CLASSES[((idx / (2 * nl.len() as u64)) % CLASSES.len() as u64) as usize];
         let rep = idx / (2 * nl.len() * CLASSES.len()) as u64;
